@@ -76,6 +76,8 @@ RT_PAIR = 1e-10       # float64, between bottleneck configurations / byte orders
 RT32_BKG = 5e-4       # float32 / integer input, background statistic relative to the box's pixel magnitude: measured <= 3.4e-6
 RT32_RMS = 1e-5       # same for the RMS statistic: measured <= 4.8e-8
 RT32 = 3e-5           # float32 / integer input, IDW fill / integer bands relative to the data scale: measured <= 7.5e-8
+RT_INT = 1e-6         # integer input, relative to the data magnitude (in addition to the +-1 count band)
+INT_F32_LIMIT = 2.0 ** 20   # above this magnitude the float32 working copy of integer data costs >= ~0.5 count
 REL = 1e-11           # relations, relative to the data magnitude incl. the shift (measured <= 3.4e-15 quick; see report)
 REL32 = 1e-4
 
@@ -181,6 +183,10 @@ def _is_all_excluded_error(exc):
 
 def _tols(meta):
     f64 = meta['dtype'] == 'float64'
+    if meta['dtype'] not in ('float64', 'float32'):
+        # integer images: judged against the float64 computation on the values they hold (+- one count of the
+        # integer output); 1e-6 of the magnitude covers the library's float32 working precision below 2**20
+        return RT_INT, REL32
     return (RT if f64 else RT32), (REL if f64 else REL32)
 
 
@@ -233,6 +239,31 @@ def run_case(case):
     if min(meta['shape']) == 1:
         case.note('shape_single_row_or_column')
     unit = float(meta.get('unit', 1.0)) if dt in ('float64', 'float32') else 1.0
+    (ny_, nx_), (by_, bx_) = meta['shape'], meta['box']
+    my_, mx_ = -(-ny_ // by_), -(-nx_ // bx_)
+    case.note('axis2_dtype:' + dt)
+    if by_ != bx_:
+        case.note('axis2_box_anisotropic')
+    if not np.isscalar(spec['fsize']) and spec['fsize'][0] != spec['fsize'][1]:
+        case.note('axis2_filter_anisotropic')
+    if mx_ >= my_ + 2:
+        case.note('axis2_mesh_wider_than_tall')
+    if my_ >= mx_ + 2:
+        case.note('axis2_mesh_taller_than_wide')
+    if meta.get('border'):
+        case.note('axis2_border:' + meta['border'].split(':')[0])
+        case.note('axis2_border_kind:' + meta['border'].split(':')[1])
+    for ax, n_, b_ in (('y', ny_, by_), ('x', nx_, bx_)):
+        r_ = n_ % b_
+        case.note('axis2_size_%s:%s' % (ax, 'multiple' if r_ == 0 else 'plus_one' if r_ == 1 else
+                                        'minus_one' if r_ == b_ - 1 else 'other'))
+    if meta.get('mask_all_false') or meta.get('cov_all_false'):
+        case.note('axis2_mask_all_false')
+    if meta.get('int_big'):
+        case.note('axis2_int_values_beyond_float32')
+    if meta.get('float16') and meta.get('mag') == 'plain':
+        _float16_case(case, spec, mech)
+        return
 
     # ---------------- M1 reference -------------------------------------
     tmask = ref.total_mask(data, mask, cov)
@@ -414,6 +445,19 @@ def run_case(case):
                 case.note('sextractor_branch_tie')
                 return
 
+    if is_int and scale > INT_F32_LIMIT:
+        # integer values that do not fit the 24-bit mantissa of the float32 working copy the library makes of
+        # every non-float image: judged against the float64 computation, under its own mechanism key
+        tol_b = 1e-12 * scale
+        okb = ref.trunc_band_ok(_fl(U)[s_in], rbkg[s_in], tol_b)
+        fin = s_in & np.isfinite(rrms)
+        okr = ref.trunc_band_ok(_fl(Ur)[fin], rrms[fin], tol_b)
+        case.check(bool(okb.all() and okr.all()), 'int_large_values_mesh', dict(mech, int_values_beyond_float32=True),
+                   nbad=int((~okb).sum() + (~okr).sum()), data_dtype=str(data.dtype), magnitude=scale,
+                   obs=U[s_in][~okb][:4].tolist(), exp=rbkg[s_in][~okb][:4].tolist(),
+                   obs_rms=Ur[fin][~okr][:4].tolist(), exp_rms=rrms[fin][~okr][:4].tolist())
+        case.note('int_large_values_cases')
+        return
     if is_int:
         info = np.iinfo(data.dtype)
         outside = (s_in | s_tie) & ((rbkg < info.min - (atol + 1e-6)) | (rbkg > info.max + (atol + 1e-6)))
@@ -691,6 +735,45 @@ def run_case(case):
 
 
 # ----------------------------------------------------------------------
+def _float16_case(case, spec, mech):
+    """Half-precision image: scipy.ndimage (median filter, zoom) rejects float16 with an undocumented RuntimeError -
+    counted, not judged; where the configuration avoids scipy the result is compared with the float64 computation on
+    the same values at the precision of float16 (11 bits)."""
+    d16 = spec['data'].astype(np.float16)
+    if not np.isfinite(d16[np.isfinite(spec['data'])]).all():
+        case.note('axis2_float16_out_of_range')
+        return
+    case.nontrivial = True
+    sp16 = dict(spec, data=d16, forms=scenes.PLAIN_FORMS)
+    try:
+        o16 = scenes.outputs(scenes.construct(sp16))
+    except RuntimeError as exc:
+        if 'array type' in str(exc) and 'not supported' in str(exc):
+            case.note('axis2_float16_rejected_by_scipy_ndimage')
+            return
+        raise
+    except ValueError as exc:
+        if _is_all_excluded_error(exc):
+            case.note('axis2_float16_all_excluded')
+            return
+        raise
+    try:
+        o64 = scenes.outputs(scenes.construct(dict(sp16, data=d16.astype(np.float64))))
+    except ValueError as exc:
+        if _is_all_excluded_error(exc):
+            return
+        raise
+    good = d16[np.isfinite(d16)].astype(float)
+    sc = float(np.max(np.abs(good))) if good.size else 1.0
+    if np.array_equal(o16['npix'], o64['npix']):
+        for k in ('mesh', 'rmesh', 'bkg', 'rms'):
+            case.close(_fl(o16[k]), _fl(o64[k]), 'float16_vs_float64_' + k, rtol=4e-3, atol=4e-3 * sc,
+                       mech=dict(mech, dtype='float16'))
+        case.note('axis2_float16_judged')
+    else:
+        case.note('axis2_float16_clip_difference_at_half_precision')
+
+
 def _zoom_reference(case, mesh, mp, off, box, shape, ikw, tag, mech, dtype):
     """The map is the spline zoom of the mesh by the box size, cropped to the image (the
     padding is at the top/right), clipped to the mesh range; constant mesh -> constant map."""
